@@ -21,7 +21,11 @@ pub struct Variable { pub var_type: VariableType, pub signed: bool, pub var_cons
 pub struct CompilerState { pub x: u8 }
 impl CompilerState {
     pub uninterp spec fn var(&self, name: Seq<char>) -> Variable;
-    #[verifier::external_body] pub fn get_variable(&self, name: &str) -> (r: &Variable) ensures *r == self.var(name@) { unimplemented!() }
+    pub uninterp spec fn declared(&self, name: Seq<char>) -> bool;
+    // the real get_variable unwraps the table lookup: it may only be called with a name known to be declared
+    #[verifier::external_body] pub fn get_variable(&self, name: &str) -> (r: &Variable)
+        requires self.declared(name@), //@ C16:shift-operand-variable-looked-up-without-panic
+        ensures *r == self.var(name@) { unimplemented!() }
     #[verifier::external_body] pub fn syntax_error(&self, message: &str, loc: usize) -> Error { unimplemented!() }
     #[verifier::external_body] pub fn compiler_error(&self, message: &str, loc: usize) -> Error { unimplemented!() }
 }
@@ -74,6 +78,11 @@ pub open spec fn imm128(e: ExprType) -> bool { e == ExprType::Immediate(0x80) }
 """
 
 STUBS = """
+    // the total lookup (generate_statements.rs): an error for a name that is not a variable
+    #[verifier::external_body]
+    pub(crate) fn variable_or_error(&self, name: &str, pos: usize) -> (r: Result<&'a Variable, Error>)
+        ensures (r is Ok) == self.compiler_state.declared(name@), r is Ok ==> *r->Ok_0 == self.compiler_state.var(name@),
+    { unimplemented!() }
     #[verifier::external_body]
     pub(crate) fn asm(&mut self, mnemonic: AsmMnemonic, operand: &ExprType, pos: usize, high_byte: bool) -> (res: Result<bool, Error>)
         requires
